@@ -4,6 +4,7 @@
 (* with the meaning of SMT-LIB text defined in SmtLibSyntax.tla.            *)
 (***************************************************************************)
 EXTENDS SmtLibSyntax
+SqX == INSTANCE SequencesExt
 
 SigOf(scope) == [nm \in {scope[j].n : j \in 1..Len(scope)} |-> scope[CHOOSE j \in 1..Len(scope) : scope[j].n = nm].ty]
 
@@ -80,11 +81,31 @@ AsStores(t) ==
     IN  IF t.op = "array_value" THEN Chain2(ArrV(t.ty, <<args[1]>>), 2)
         ELSE [t EXCEPT !.a = args]
 
+(* The literal keeps its assignments in an unspecified order (FormulaManager.Array sorts them by object
+   identity) and the printer emits the stores sorted by the text of the index, so "the equivalent chain of
+   stores" is a chain over the same constant array with the same set of (distinct constant index, value)
+   assignments, in any order: chains of that form are compared as sets. *)
+RECURSIVE ChainBase(_), ChainPairs(_), CanonStores(_)
+ChainBase(t)  == IF t.op = "array_store" THEN ChainBase(t.a[1]) ELSE t
+ChainPairs(t) == IF t.op = "array_store" THEN ChainPairs(t.a[1]) \o << <<t.a[2], t.a[3]>> >> ELSE <<>>
+CanonStores(t) ==
+    LET b  == ChainBase(t)
+        ps == ChainPairs(t)
+        keys == {ps[j][1] : j \in 1..Len(ps)}
+        cps == SqX!SetToSeq({<<CanonStores(ps[j][1]), CanonStores(ps[j][2])>> : j \in 1..Len(ps)})
+        RECURSIVE Flat(_)
+        Flat(j) == IF j > Len(cps) THEN <<>> ELSE <<cps[j][1], cps[j][2]>> \o Flat(j + 1)
+    IN  IF t.op = "array_store" /\ b.op = "array_value" /\ Len(b.a) = 1
+           /\ Cardinality(keys) = Len(ps) /\ \A k \in keys : k.op \in ConstOps
+        THEN Op("array_stores", <<CanonStores(b)>> \o Flat(1))
+        ELSE [t EXCEPT !.a = [j \in 1..Len(t.a) |-> CanonStores(t.a[j])]]
+
 (* parse(print(f)): same = the parser returned the very same object *)
 SmtRoundTripContract(e) ==
-    IF e.res # "ok" THEN Verdict(<<"print_or_parse_raised">>, <<>>, -1)
-    ELSE Verdict(Fl("returns_the_same_formula_object", e.same \/ (HasOp(e.f, {"array_value"}) /\ e.parsed = AsStores(e.f))) \o
-                 Fl("reparsed_structure", e.same \/ e.parsed = AsStores(e.f)), <<>>, -1)
+    LET asStores == CanonStores(e.parsed) = CanonStores(AsStores(e.f))
+    IN  IF e.res # "ok" THEN Verdict(<<"print_or_parse_raised">>, <<>>, -1)
+        ELSE Verdict(Fl("returns_the_same_formula_object", e.same \/ (HasOp(e.f, {"array_value"}) /\ asStores)) \o
+                     Fl("reparsed_structure", e.same \/ asStores), <<>>, -1)
 
 (* serialize(parse(text)) re-parsed: cmds1 / cmds2 = [name, terms, formals] per command *)
 ScriptRoundTripContract(e) ==
